@@ -23,6 +23,7 @@ func CompileToGetDecoder(typ *runtime.Type) (Decoder, error) {
 	decMu.RLock()
 	if dec := cachedDecoder[index]; dec != nil {
 		decMu.RUnlock()
+		verifDecoder(typeptr, dec, int(index))
 		return dec, nil
 	}
 	decMu.RUnlock()
@@ -31,6 +32,8 @@ func CompileToGetDecoder(typ *runtime.Type) (Decoder, error) {
 	if err != nil {
 		return nil, err
 	}
+	verifDecoder(typeptr, dec, int(index))
+	verifYield("dec-cache:compiled")
 	decMu.Lock()
 	cachedDecoder[index] = dec
 	decMu.Unlock()
